@@ -487,7 +487,7 @@ func c18(r *mon.Run) {
 	for _, k := range docs.ShadowKeys {
 		K := gen.Field(k)
 		switch k {
-		case "Items", "PItems", "QItems":
+		case "Items", "PItems", "QItems", "HItems":
 			for _, f := range F {
 				etrees = append(etrees, gen.Chain(K, gen.StListStar(), gen.StField(f)), gen.Chain(K, gen.StFlatten(), gen.StField(f)), gen.Chain(K, gen.StIndex(0), gen.StField(f)), gen.Chain(K, gen.StIndex(-1), gen.StField(f)),
 					gen.Chain(K, gen.StFilter(gen.Field(f)), gen.StField("Name")), gen.Chain(K, gen.StSliceS("1", "", ""), gen.StField(f)), gen.Func("length", gen.Chain(K, gen.StFilter(gen.Field(f)))),
